@@ -11,7 +11,7 @@ import numpy as np
 from verde import coordinates as vc
 
 from symx import stubs
-from symx.engine import And, Or, Not, Implies, eq, le, lt, ge, gt, sabs
+from symx.engine import And, Or, Not, Implies, eq, le, lt, ge, gt, sabs, CBool
 from symx.harness import Harness
 
 HALF = Fraction(1, 2)
@@ -127,7 +127,12 @@ def h_rolling(ctx):
         ov_n = le(centers[1][1, 0] - centers[1][0, 0], size) if ny > 1 else le(region[3] - region[2], size)
         overlap = And(ov_e, ov_n)
         for pidx in np.ndindex(*e.shape):
-            inreg = And(ge(e[pidx], region[0]), le(e[pidx], region[1]), ge(n[pidx], region[2]), le(n[pidx], region[3]))
+            if ctx.sym:
+                inreg = And(ge(e[pidx], region[0]), le(e[pidx], region[1]), ge(n[pidx], region[2]), le(n[pidx], region[3]))
+            else:
+                # replay on doubles: the property itself excludes points within round-off of the region border
+                mg = 1e-9 * (1.0 + max(abs(float(v)) for v in region) + abs(float(size)))
+                inreg = CBool(float(region[0]) + mg < float(e[pidx]) < float(region[1]) - mg and float(region[2]) + mg < float(n[pidx]) < float(region[3]) - mg)
             covered = any(member[(widx, pidx)] for widx in np.ndindex(*centers[0].shape))
             ctx.claim("when the step between centres does not exceed the window size every point of the region is selected at least once", True if covered else Not(And(overlap, inreg)))
 
